@@ -81,6 +81,20 @@ example :
     PipeAtomic.quiescent a = true ∧ a.hasPipe = true ∧ PipeAtomic.readable a = false ∧
       PipeAtomic.shouldBeReadable a = false := by decide
 
+-- combining switched on before fileno(), off afterwards, then stderr data through `_feed_extended`: it lands in the
+-- stderr buffer, whose event fileno() attached regardless of the combine flag — readable
+example :
+    let a := PipeAtomic.run true {} [.cstart .combineOn, .bstep true, .cstart .fileno, .bstep false, .bstep true,
+      .cstart .combineOff, .cstart .feedErr, .bstep true]
+    PipeAtomic.quiescent a = true ∧ a.hasPipe = true ∧ a.combine = false ∧ a.b2.ne = true ∧ a.b1.ne = false ∧
+      PipeAtomic.readable a = true := by decide
+
+-- stderr data buffered, then combining switched on: the data moves to stdout, the descriptor stays readable
+example :
+    let a := PipeAtomic.run true {} [.cstart .fileno, .bstep false, .bstep true, .cstart .feedErr, .bstep true,
+      .cstart .combineOn, .bstep true, .bstep false]
+    PipeAtomic.quiescent a = true ∧ a.b2.ne = false ∧ a.b1.ne = true ∧ PipeAtomic.readable a = true := by decide
+
 /-! ## witnesses: the defects that were fixed -/
 
 /-- pipe.py without locks: stdout data is buffered, nothing is running, and the descriptor is NOT readable -/
